@@ -288,6 +288,8 @@ def run_check(pid, tier, only=None, keep=False, parallel=None):
                 continue
             if tier == "quick" and h["tier"] != "quick":
                 continue
+            if tier == "quick" and h.get("qprops") and pid not in h["qprops"].split(","):
+                continue  # an expensive kernel runs in the quick tier only of the properties named in qprops=
             if only and not re.search(only, h["fn"]):
                 continue
             kf = h.get("kf")
